@@ -242,6 +242,7 @@ class Interp:
         if path in self.watch_calls:
             self.trace.add("callmark", {"path": path, "args": [self.deref(a) if not isinstance(a, Ref) else None for a in args], "where": FX.short((node or {}).get("sp")), "fn": self.fn_stack[-2] if len(self.fn_stack) > 1 else ""})
         self.body_stack.append(FX.strip(fn["body"]))
+        t0, n0 = self.trace, len(self.trace.items)
         try:
             try:
                 if (fn.get("ret_ty") or "").startswith("&mut "):
@@ -254,7 +255,42 @@ class Interp:
             self.depth -= 1
             self.fn_stack.pop()
             self.body_stack.pop()
+        if self.trace is t0 and self.has_failure_exit(t0.items[n0:]):
+            v = self.mark_fallible(v, path)
         return v
+
+    # Failure exits (`return Err(..)`, `?`, `None`) are recorded as guards: the failing path is dropped from the analysed
+    # executions.  That is right as long as every caller hands the failure on.  A caller that *handles* it (`if let Ok`,
+    # `.ok()`, `unwrap_or`, `let _ =`, a match arm that carries on) continues on a path the analysis no longer has, so the
+    # value such a callee returns is marked and every consumer other than propagation is refused (fail closed).
+    def has_failure_exit(self, items):
+        for it in items:
+            if it[0] == "guard":
+                rv = it[2]
+                if isinstance(rv, Enum) and rv.variant in ("Err", "None"):
+                    return True
+            elif it[0] == "star":
+                if self.has_failure_exit(it[1]):
+                    return True
+            elif it[0] == "alt":
+                if self.has_failure_exit(it[2]) or self.has_failure_exit(it[3]):
+                    return True
+        return False
+
+    def mark_fallible(self, v, path):
+        import copy as _copy
+
+        d = v
+        if isinstance(d, (Enum, Ite)) or (isinstance(d, Opaque) and d.what == "result"):
+            d = _copy.copy(d)
+            d.fallible = path
+            return d
+        return v
+
+    def refuse_handled_failure(self, v, how, where):
+        src = getattr(v, "fallible", None)
+        if src:
+            raise Unanalysable(f"a failure of {src} is {how} instead of being propagated (the analysis drops failing paths at the point of failure; a caller that carries on after a failure is outside the fragment)", where)
 
     # -- patterns ----------------------------------------------------------------
     def bind(self, pat, val, env):
@@ -612,6 +648,8 @@ class Interp:
                 v = self.ev_raw(s["init"], env)
                 if s.get("els"):
                     v = self.let_else(s, self.deref(v), env)
+                if s["pat"]["k"] == "Wild":
+                    self.refuse_handled_failure(v if not isinstance(v, Ref) else None, "discarded (`let _ =`)", FX.short(s["init"].get("sp")))
                 # bind by value unless the initialiser is an explicit mutable borrow
                 if not (isinstance(v, Ref) and self.is_mut_borrow(s["init"])):
                     v = self.deref(v)
@@ -637,7 +675,9 @@ class Interp:
                         finally:
                             self.body_stack.pop()
                     continue
-                self.ev_raw(s["e"], env)
+                v_ = self.ev_raw(s["e"], env)
+                if sk == "Semi":
+                    self.refuse_handled_failure(v_ if not isinstance(v_, Ref) else None, "discarded", FX.short(s["e"].get("sp")))
             elif sk == "Item":
                 continue
         if e.get("expr") is not None:
@@ -1337,6 +1377,25 @@ class Interp:
         return self.match_val(scrut, e, env)
 
     def match_val(self, scrut, e, env):
+        if isinstance(scrut, Enum) and getattr(scrut, "fallible", None) and scrut.variant in ("Ok", "Some"):
+            fail = Enum(scrut.path, "Err" if scrut.variant == "Ok" else "None", [Opaque("error-value")] if scrut.variant == "Ok" else [])
+            arm_f = next((a_ for a_ in e["arms"] if a_.get("guard") is None and self.pat_matches(a_["pat"], fail)), None)
+            ok_ = False
+            if arm_f is not None:
+                snap_ = self.snapshot(env)
+                old_ = self.sub_trace()
+                try:
+                    self.bind_match(arm_f["pat"], fail, env)
+                    self.ev_raw(arm_f["body"], env)
+                except ReturnSignal as r_:
+                    ok_ = self.is_abort_value(self.deref(r_.val))
+                except Unanalysable as u_:
+                    ok_ = "reachable panic" in u_.msg
+                finally:
+                    self.trace = old_
+                    self.restore(env, snap_)
+            if not ok_:
+                self.refuse_handled_failure(scrut, "handled by a match / if-let arm that carries on", FX.short(e.get("sp")))
         if isinstance(scrut, Enum):
             for arm in e["arms"]:
                 if self.pat_matches(arm["pat"], scrut):
